@@ -1,64 +1,61 @@
+import SigpyVerif.Gen.Sim
 /-
   C19 — Bloch simulators (sigpy/mri/rf/sim.py: abrm, abrm_nd, abrm_hp, abrm_ptx; optcont.py: blochsim) and the
   inverse SLR recursion (slr.py: ab2rf).
 
-  Core Lean only.  Every per-sample update is transcribed from the Python source as a map on the
-  Cayley–Klein state `(a, b)`, *generically* over a type `α` with `+ - * /`, negation and a conjugation
-  (`HasConj`), so that the very same definitions are reasoned about over ℂ (Props/C19.lean) and executed over
-  the Gaussian rationals `GRat` by the driver.  The rotation parameters of a sample (what the code computes
-  with cos/sin/exp from rf, gradient and position) are *inputs* of the step; the theorems constrain them by
-  what the code guarantees (`|av|²+|bv|² = 1`, `C` real with `C²+|S|² = 1`, `|z| = 1`).  A simulator is the
-  left fold of its step over the list of per-sample parameters, followed (abrm_hp, blochsim) by the final
-  half-area phase.
+  Core Lean only.  The per-sample updates of the Cayley–Klein state `(a, b)`, the parameter formulas
+  (`av`, `bv`, `S`, `alpha`, `beta` from the atoms cos/sin/axis/unit phases), the final rephasing and the whole
+  simulations (`…Sim`: one sample update per list element, in order) are the definitions of `Gen/Sim.lean`,
+  REGENERATED FROM THE SOURCE on every run by harness/translate/gen_c19.py, generic over a type `α` with
+  `+ - * /`, negation, a conjugation (`HasConj`) and the imaginary unit (`HasI`): reasoned about over ℂ
+  (Props/C19.lean), executed over the Gaussian rationals `GRat` by the driver.  The step maps below ARE the
+  generated ones (tupled); `abrm_nd`'s and `blochsim`'s final phase are tied to them by lemmas in Props.
+  The theorems constrain the atoms by what the code guarantees (`C² + S² = 1` real, unit axis, `|u| = |z| = 1`).
 -/
 namespace SigpyVerif.C19
+open SigpyVerif.Gen.Sim
 
-class HasConj (α : Type) where
-  conj : α → α
-export HasConj (conj)
+variable {α : Type} [Add α] [Sub α] [Mul α] [Div α] [Neg α] [HasConj α] [HasI α]
 
-variable {α : Type} [Add α] [Sub α] [Mul α] [Div α] [Neg α] [HasConj α]
-
-/-- `abrm`, `abrm_nd`:  `at = av*a - conj(bv)*b ; bt = bv*a + conj(av)*b` -/
-def ckStep (p : α × α) (s : α × α) : α × α :=
-  (p.1 * s.1 - conj p.2 * s.2, p.2 * s.1 + conj p.1 * s.2)
+/-- `abrm` (and, by `abrmNdStep_eq`, `abrm_nd`):  `at = av*a - conj(bv)*b ; bt = bv*a + conj(av)*b` -/
+def ckStep (p : α × α) (s : α × α) : α × α := abrmStep p.1 p.2 s
 
 /-- `abrm_hp`:  `b = b*z ; at = a*C - b*conj(S) ; bt = a*S + b*C`  (parameters `(C, S, z)`) -/
-def hpStep (p : α × α × α) (s : α × α) : α × α :=
-  let b := s.2 * p.2.2
-  (s.1 * p.1 - b * conj p.2.1, s.1 * p.2.1 + b * p.1)
+def hpStep (p : α × α × α) (s : α × α) : α × α := abrmHpStep p.1 p.2.1 p.2.2 s
 
 /-- `blochsim`:  `at = a*c - b*conj(s) ; bt = a*s + b*c ; b = bt*z` -/
-def bsStep (p : α × α × α) (s : α × α) : α × α :=
-  (s.1 * p.1 - s.2 * conj p.2.1, (s.1 * p.2.1 + s.2 * p.1) * p.2.2)
+def bsStep (p : α × α × α) (s : α × α) : α × α := blochsimStep p.1 p.2.1 p.2.2 s
 
 /-- `abrm_ptx` (internal state):  `tmpa = alpha*sa + beta*sb ; tmpb = -conj(beta)*sa + conj(alpha)*sb` -/
-def ptxStep (p : α × α) (s : α × α) : α × α :=
-  (p.1 * s.1 + p.2 * s.2, -(conj p.2) * s.1 + conj p.1 * s.2)
+def ptxStep (p : α × α) (s : α × α) : α × α := abrmPtxStep p.1 p.2 s
 
 /-- `abrm_ptx` output: `a = statea ; b = -conj(stateb)` -/
-def ptxOut (s : α × α) : α × α := (s.1, -(conj s.2))
+def ptxOut (s : α × α) : α × α := abrmPtxOut s
+
+/-- the per-sample parameters the code computes from the atoms -/
+def ckParams (p : CkAtoms α) : α × α := (abrmParam_av p, abrmParam_bv p)
+def ndParams (p : CkAtoms α) : α × α := (abrmNdParam_av p, abrmNdParam_bv p)
+def hpParams (p : HpAtoms α) : α × α × α := (p.C, abrmHpParam_S p, p.z)
+def bsParams (p : HpAtoms α) : α × α × α := (p.C, blochsimParam_s p, p.z)
+def ptxParams (p : PtxAtoms α) : α × α := (abrmPtxParam_alpha p, abrmPtxParam_beta p)
 
 /-- the simulators' loop over time -/
 def sim {P : Type} (step : P → α × α → α × α) (w : List P) (s0 : α × α) : α × α :=
   w.foldl (fun s p => step p s) s0
 
 /-- final phase of abrm_hp / blochsim (and abrm's `balanced` rewinder has the same shape with `(av, conj av)`) -/
-def finalPhase (zf : α) (s : α × α) : α × α := (s.1 * zf, s.2 * zf)
+def finalPhase (zf : α) (s : α × α) : α × α := abrmHpFinal zf s
 
 /-- SU(2) composition of two simulations in Cayley–Klein form: first `(a1,b1)`, then `(a2,b2)` -/
 def compose (s2 s1 : α × α) : α × α := ckStep s2 s1
 
 /-! ### ab2rf: one peel of the backward recursion -/
 
-/-- `sj = conj(cj * b[ii] / a[ii])` -/
-def peelS (cj aii bii : α) : α := conj (cj * bii / aii)
+/-- `sj = conj(cj * b[ii] / a[ii])` (generated) -/
+def peelS (cj aii bii : α) : α := ab2rfSj cj aii bii
 
-/-- `at = cj*a + sj*b ; bt = -conj(sj)*a + cj*b ; a = at[1:ii+1] ; b = bt[0:ii]` -/
-def peel (cj sj : α) (a b : List α) (ii : Nat) : List α × List α :=
-  let at_ := List.zipWith (fun x y => cj * x + sj * y) a b
-  let bt := List.zipWith (fun x y => -(conj sj) * x + cj * y) a b
-  ((at_.drop 1).take ii, bt.take ii)
+/-- `at = cj*a + sj*b ; bt = -conj(sj)*a + cj*b ; a = at[1:ii+1] ; b = bt[0:ii]` (generated) -/
+def peel (cj sj : α) (a b : List α) (ii : Nat) : List α × List α := ab2rfPeel cj sj a b ii
 
 /-- the whole backward recursion on coefficient lists; `cs` are the values `cj` for `ii = n-1, n-2, …, 0`
 (each `cj = sqrt(1/(1+|b[ii]/a[ii]|²))`; over `GRat` they are hints that the driver checks by squaring).
@@ -91,6 +88,7 @@ instance : Div GRat := ⟨fun x y =>
   let d := normSq y
   ⟨(x.re * y.re + x.im * y.im) / d, (x.im * y.re - x.re * y.im) / d⟩⟩
 instance : HasConj GRat := ⟨fun x => ⟨x.re, -x.im⟩⟩
+instance : HasI GRat := ⟨⟨0, 1⟩⟩
 end GRat
 
 end SigpyVerif.C19
